@@ -320,18 +320,38 @@ func newVerifier(o *trustpolicy.OCIDocument, b *trustpolicy.BlobDocument) error 
 	return err
 }
 
-type stats struct {
-	mu      sync.Mutex
+// tally collects the counters of one work unit; flush merges them into the
+// run-wide totals under one lock (hx counters take a lock per call).
+type tally struct {
+	out     map[string]int64
 	reasons map[string]int // kind|rule -> documents rejected for (among others) this rule
-	section map[string]int
 	accepts int
+	evals   int
 }
 
-var st = stats{reasons: map[string]int{}, section: map[string]int{}}
+func newTally() *tally { return &tally{out: map[string]int64{}, reasons: map[string]int{}} }
+
+var st = struct {
+	sync.Mutex
+	tally
+}{tally: *newTally()}
+
+func (t *tally) flush() {
+	st.Lock()
+	for k, v := range t.out {
+		st.out[k] += v
+	}
+	for k, v := range t.reasons {
+		st.reasons[k] += v
+	}
+	st.accepts += t.accepts
+	st.evals += t.evals
+	st.Unlock()
+}
 
 // judge runs the real code on one document and compares with the expected verdict.
 // what: class of the origin used in the rejected-valid key.
-func judge(r *hx.Run, kind string, o *trustpolicy.OCIDocument, b *trustpolicy.BlobDocument, expectValid bool, reasons []string, skip []bool, what, origin string) {
+func judge(r *hx.Run, t *tally, kind string, o *trustpolicy.OCIDocument, b *trustpolicy.BlobDocument, expectValid bool, reasons []string, skip []bool, what, origin string) {
 	rc := func() replayCase {
 		var raw []byte
 		if kind == "oci" {
@@ -349,7 +369,7 @@ func judge(r *hx.Run, kind string, o *trustpolicy.OCIDocument, b *trustpolicy.Bl
 		err = b.Validate()
 		verr = newVerifier(nil, b)
 	}
-	r.Eval(2)
+	t.evals += 2
 	why := strings.Join(reasons, "+")
 	switch {
 	case err == nil && !expectValid:
@@ -357,9 +377,9 @@ func judge(r *hx.Run, kind string, o *trustpolicy.OCIDocument, b *trustpolicy.Bl
 	case err != nil && expectValid:
 		r.Violation(kind+"/rejected-valid:"+what, fmt.Sprintf("Validate rejected a well-formed %s document (%s) with %q: %s", kind, origin, err, rc().Document), rc())
 	case err == nil:
-		r.Outcome(kind + ":accepted-valid")
+		t.out[kind+":accepted-valid"]++
 	default:
-		r.Outcome(kind + ":rejected-invalid")
+		t.out[kind+":rejected-invalid"]++
 	}
 	if (err == nil) != (verr == nil) {
 		r.Violation(kind+"/verifier-differs-from-validate:"+map[bool]string{true: "verifier-accepts", false: "verifier-rejects"}[verr == nil],
@@ -381,7 +401,7 @@ func judge(r *hx.Run, kind string, o *trustpolicy.OCIDocument, b *trustpolicy.Bl
 				sv = &b.TrustPolicies[i].SignatureVerification
 			}
 			lv, lerr := sv.GetVerificationLevel()
-			r.Eval(1)
+			t.evals++
 			isSkip := i < len(skip) && skip[i]
 			switch {
 			case lerr != nil || lv == nil:
@@ -389,30 +409,28 @@ func judge(r *hx.Run, kind string, o *trustpolicy.OCIDocument, b *trustpolicy.Bl
 			case !isSkip && lv.Enforcement[trustpolicy.TypeIntegrity] != trustpolicy.ActionEnforce:
 				r.Violation(kind+"/accepted-statement-not-enforcing-integrity", fmt.Sprintf("statement %d (level %q, not skip) of an accepted document has integrity=%q (%s)", i, sv.VerificationLevel, lv.Enforcement[trustpolicy.TypeIntegrity], origin), rc())
 			case isSkip:
-				r.Outcome(kind + ":statement-level-skip")
+				t.out[kind+":statement-level-skip"]++
 			default:
-				r.Outcome(kind + ":statement-level-enforces-integrity")
+				t.out[kind+":statement-level-enforces-integrity"]++
 			}
 		}
 	}
-	st.mu.Lock()
 	if err == nil && expectValid {
-		st.accepts++
+		t.accepts++
 	}
 	if err != nil && !expectValid {
 		for _, x := range reasons {
-			st.reasons[kind+"|"+x]++
+			t.reasons[kind+"|"+x]++
 		}
 	}
-	st.mu.Unlock()
 }
 
 // judgeSpec = reference + real code on a spec.
-func judgeSpec(r *hx.Run, d *docSpec, what, origin string) (valid bool) {
+func judgeSpec(r *hx.Run, t *tally, d *docSpec, what, origin string) (valid bool) {
 	reasons, skip := reference(d)
 	for _, x := range reasons {
 		if x == unjudged {
-			r.Outcome(d.Kind + ":unjudged(scope twice in one statement)")
+			t.out[d.Kind+":unjudged(scope twice in one statement)"]++
 			return false
 		}
 	}
@@ -420,12 +438,12 @@ func judgeSpec(r *hx.Run, d *docSpec, what, origin string) (valid bool) {
 		o := d.oci()
 		raw, _ := json.Marshal(o)
 		r.Nontrivial("oci|" + string(raw))
-		judge(r, "oci", o, nil, len(reasons) == 0, reasons, skip, what, origin)
+		judge(r, t, "oci", o, nil, len(reasons) == 0, reasons, skip, what, origin)
 	} else {
 		b := d.blob()
 		raw, _ := json.Marshal(b)
 		r.Nontrivial("blob|" + string(raw))
-		judge(r, "blob", nil, b, len(reasons) == 0, reasons, skip, what, origin)
+		judge(r, t, "blob", nil, b, len(reasons) == 0, reasons, skip, what, origin)
 	}
 	return len(reasons) == 0
 }
@@ -901,12 +919,14 @@ func enumEdits(r *hx.Run, kind string) {
 	// base documents and single edits
 	r.Parallel(len(bases), func(i int) {
 		b := bases[i]
+		t := newTally()
+		defer t.flush()
 		reasons, _ := reference(b.Spec)
 		if len(reasons) != 0 {
 			r.Infra("harness: base document %s is not valid by the reference: %v", b.ID, reasons)
 			return
 		}
-		judgeSpec(r, b.Spec, "base", b.ID)
+		judgeSpec(r, t, b.Spec, "base", b.ID)
 		edits[i] = editsFor(b.Spec)
 		for k := range edits[i] {
 			e := &edits[i][k]
@@ -924,7 +944,7 @@ func enumEdits(r *hx.Run, kind string) {
 				r.Infra("harness: validity-preserving edit %s on %s gives %v", e.Op, b.ID, rs)
 				continue
 			}
-			judgeSpec(r, d, whatOf(e.Op), b.ID+" + "+e.Op)
+			judgeSpec(r, t, d, whatOf(e.Op), b.ID+" + "+e.Op)
 		}
 		if i%41 == 0 {
 			baseSamples[i] = map[string]any{"kind": kind, "base": b.ID, "document": json.RawMessage(b.Spec.json()), "single_edits": len(edits[i])}
@@ -964,6 +984,8 @@ func enumEdits(r *hx.Run, kind string) {
 		b := bases[units[u].b]
 		es := edits[units[u].b]
 		e1 := &es[units[u].e]
+		t := newTally()
+		defer t.flush()
 		var np, nc, ns int64
 		for k := units[u].e + 1; k < len(es); k++ {
 			e2 := &es[k]
@@ -980,7 +1002,7 @@ func enumEdits(r *hx.Run, kind string) {
 				continue
 			}
 			np++
-			valid := judgeSpec(r, d, whatOf(e1.Op, e2.Op), b.ID+" + "+e1.Op+" + "+e2.Op)
+			valid := judgeSpec(r, t, d, whatOf(e1.Op, e2.Op), b.ID+" + "+e1.Op+" + "+e2.Op)
 			if valid && (e1.Rule != "" || e2.Rule != "") {
 				nc++
 			}
@@ -1080,14 +1102,18 @@ func enumAssembly(r *hx.Run, kind string) {
 	single := asmSingle(r.Thorough()).statements(kind)
 	r.Extra[kind+"_assembled_single_statement_documents"] = len(single)
 	asmSamples := make([]any, len(single))
-	r.Parallel(len(single), func(i int) {
-		d := &docSpec{Kind: kind, Version: "1.0", Stmts: []stmtSpec{single[i]}}
-		d = d.clone()
-		d.Stmts[0].Name = "a"
-		judgeSpec(r, d, "assembled", fmt.Sprintf("%s-assembled-1[%d]", kind, i))
-		if i%7919 == 0 {
-			rs, _ := reference(d)
-			asmSamples[i] = map[string]any{"kind": kind, "assembled": i, "document": json.RawMessage(d.json()), "reference": rs}
+	const chunk = 128
+	r.Parallel((len(single)+chunk-1)/chunk, func(c int) {
+		t := newTally()
+		defer t.flush()
+		for i := c * chunk; i < (c+1)*chunk && i < len(single); i++ {
+			d := (&docSpec{Kind: kind, Version: "1.0", Stmts: []stmtSpec{single[i]}}).clone()
+			d.Stmts[0].Name = "a"
+			judgeSpec(r, t, d, "assembled", fmt.Sprintf("%s-assembled-1[%d]", kind, i))
+			if i%7919 == 0 {
+				rs, _ := reference(d)
+				asmSamples[i] = map[string]any{"kind": kind, "assembled": i, "document": json.RawMessage(d.json()), "reference": rs}
+			}
 		}
 	}, nil)
 	submit(r, asmSamples)
@@ -1098,19 +1124,29 @@ func enumAssembly(r *hx.Run, kind string) {
 		namings = append(namings, naming{"2.0", "a", "b"}, naming{"1.0", "", "b"})
 	}
 	r.Extra[kind+"_assembled_two_statement_documents"] = len(pool) * len(pool) * len(namings)
-	r.Parallel(len(pool)*len(pool), func(i int) {
-		for ni, nm := range namings {
-			d := (&docSpec{Kind: kind, Version: nm.ver, Stmts: []stmtSpec{pool[i/len(pool)], pool[i%len(pool)]}}).clone()
-			d.Stmts[0].Name, d.Stmts[1].Name = nm.n0, nm.n1
-			judgeSpec(r, d, "assembled", fmt.Sprintf("%s-assembled-2[%d,%d]", kind, i, ni))
+	r.Parallel(len(pool), func(i int) {
+		t := newTally()
+		defer t.flush()
+		for j := range pool {
+			for ni, nm := range namings {
+				d := (&docSpec{Kind: kind, Version: nm.ver, Stmts: []stmtSpec{pool[i], pool[j]}}).clone()
+				d.Stmts[0].Name, d.Stmts[1].Name = nm.n0, nm.n1
+				judgeSpec(r, t, d, "assembled", fmt.Sprintf("%s-assembled-2[%d,%d,%d]", kind, i, j, ni))
+			}
 		}
 	}, nil)
 	// documents without statements and the version alphabet
+	t := newTally()
+	defer t.flush()
 	for _, v := range verAlphabet {
 		for _, empty := range []bool{false, true} {
-			judgeSpec(r, &docSpec{Kind: kind, Version: v.V, EmptySt: empty}, "assembled", kind+"-assembled-0")
+			judgeSpec(r, t, &docSpec{Kind: kind, Version: v.V, EmptySt: empty}, "assembled", kind+"-assembled-0")
 		}
-		judgeSpec(r, &docSpec{Kind: kind, Version: v.V, Stmts: []stmtSpec{mkStmt([6]int{}, "a", false)}}, "assembled-version", kind+"-assembled-version")
+		one := mkStmt([6]int{}, "a", false)
+		if kind == "blob" {
+			one.Scopes = nil
+		}
+		judgeSpec(r, t, &docSpec{Kind: kind, Version: v.V, Stmts: []stmtSpec{one}}, "assembled-version", kind+"-assembled-version")
 	}
 }
 
@@ -1133,6 +1169,8 @@ func enumBoth(r *hx.Run) {
 	}
 	os, bls := pick(ob), pick(bb)
 	r.Extra["both_kinds_pairs"] = len(os) * len(bls)
+	t := newTally()
+	defer t.flush()
 	for _, o := range os {
 		for _, b := range bls {
 			ro, _ := reference(o)
@@ -1140,7 +1178,7 @@ func enumBoth(r *hx.Run) {
 			want := len(ro) == 0 && len(rb) == 0
 			od, bd := o.oci(), b.blob()
 			err := newVerifier(od, bd)
-			r.Eval(1)
+			t.evals++
 			or, _ := json.Marshal(od)
 			br, _ := json.Marshal(bd)
 			rc := replayCase{Kind: "both", Document: or, Document2: br, ExpectValid: want, Reasons: append(append([]string{}, ro...), rb...)}
@@ -1150,9 +1188,9 @@ func enumBoth(r *hx.Run) {
 			case err != nil && want:
 				r.Violation("both/verifier-rejected-valid", fmt.Sprintf("NewVerifierWithOptions: %v; oci %s blob %s", err, or, br), rc)
 			case err == nil:
-				r.Outcome("both:accepted-valid")
+				t.out["both:accepted-valid"]++
 			default:
-				r.Outcome("both:rejected-invalid")
+				t.out["both:rejected-invalid"]++
 			}
 		}
 	}
@@ -1167,6 +1205,8 @@ func replay(r *hx.Run) {
 		return
 	}
 	before := r.Violations()
+	t := newTally()
+	defer func() { r.Eval(t.evals) }()
 	switch c.Kind {
 	case "oci":
 		var o trustpolicy.OCIDocument
@@ -1174,14 +1214,14 @@ func replay(r *hx.Run) {
 			r.Infra("replay: %v", err)
 			return
 		}
-		judge(r, "oci", &o, nil, c.ExpectValid, c.Reasons, c.Skip, "replayed", c.Origin)
+		judge(r, t, "oci", &o, nil, c.ExpectValid, c.Reasons, c.Skip, "replayed", c.Origin)
 	case "blob":
 		var b trustpolicy.BlobDocument
 		if err := json.Unmarshal(c.Document, &b); err != nil {
 			r.Infra("replay: %v", err)
 			return
 		}
-		judge(r, "blob", nil, &b, c.ExpectValid, c.Reasons, c.Skip, "replayed", c.Origin)
+		judge(r, t, "blob", nil, &b, c.ExpectValid, c.Reasons, c.Skip, "replayed", c.Origin)
 	case "both":
 		var o trustpolicy.OCIDocument
 		var b trustpolicy.BlobDocument
@@ -1190,7 +1230,7 @@ func replay(r *hx.Run) {
 			return
 		}
 		err := newVerifier(&o, &b)
-		r.Eval(1)
+		t.evals++
 		if (err == nil) != c.ExpectValid {
 			r.Violation("both/replayed", fmt.Sprintf("NewVerifierWithOptions: %v, expected valid=%v %v", err, c.ExpectValid, c.Reasons), c)
 		}
@@ -1224,6 +1264,18 @@ func main() {
 		enumAssembly(r, kind)
 	}
 	enumBoth(r)
+	// hand the totals to the run (sorted, single-threaded)
+	r.Eval(st.evals)
+	classes := make([]string, 0, len(st.out))
+	for k := range st.out {
+		classes = append(classes, k)
+	}
+	sort.Strings(classes)
+	for _, k := range classes {
+		for n := int64(0); n < st.out[k]; n++ {
+			r.Outcome(k)
+		}
+	}
 	if st.accepts == 0 {
 		r.Infra("no valid document was accepted: positive controls failed")
 	}
